@@ -457,6 +457,34 @@ func codecCheck(c *Ctx, prop string) error {
 		feat := featureOf(k.name)
 		res.Count("type:" + feat)
 		replay := map[string]any{"schema": k.x.req, "type": k.full, "value": jsonRaw(gen.PJ(k.val)), "real": o}
+		// a decoder that does not reset its target: named by the template that emits the message's UnmarshalJSON
+		reuseClass := featureOf(k.name)
+		if im, _ := k.x.req.FindMessage(k.full); im != nil {
+			if len(im.Fields) == 1 && im.Fields[0].Card == "map" && im.Fields[0].Ann.Unwrap {
+				reuseClass = "root_map_unwrap"
+			}
+			for _, f := range im.Fields {
+				if f.Card == "map" && f.Kind == "message" {
+					if vm, _ := k.x.req.FindMessage(f.TypeName); vm != nil {
+						for _, vf := range vm.Fields {
+							if vf.Ann.Unwrap && vf.Card == "repeated" && !f.Ann.Unwrap {
+								reuseClass = "unwrap_container"
+							}
+						}
+					}
+				}
+			}
+		}
+		if rd, _ := o["reused_target_differs"].(bool); rd && prop == "C04" {
+			res.Count("reused_target_differs:" + reuseClass)
+			// the map-value-unwrap container template assigns member by member into the message it is given and never
+			// resets it, the root map unwrap template decodes with json.Unmarshal(data, &x.<Map>), which keeps the entries
+			// of a non-nil map (both recorded); every other generated decoder ends in protojson.Unmarshal, which resets
+			res.Divergence("decoder_keeps_target_state:"+reuseClass, fmt.Sprintf("%s: decoding the encoder's JSON into a variable that already held another value of the type gives %s, into a fresh one %s (held before: %s)", k.name, clip(canon(o["reused_target_val"]), 200), clip(canon(o["rt"]), 200), clip(canon(o["reused_target_before"]), 160)), reuseClass == "unwrap_container" || reuseClass == "root_map_unwrap", replay)
+		}
+		if re, _ := o["reused_target_err"].(string); re != "" && prop == "C04" {
+			res.Violation("decoder_keeps_target_state:"+reuseClass, k.name+": decoding the encoder's JSON into a variable that already held another value of the type fails ("+re+") while it succeeds into a fresh one", replay)
+		}
 		if al, _ := o["aliased"].(bool); al {
 			res.Violation("encoder_result_aliased", k.name+": the bytes MarshalJSON returned changed when another value of the type was encoded afterwards (the result shares memory with a later encoding)", replay)
 		}
